@@ -256,6 +256,21 @@ func (d *Driver) judgeC01() {
 				}
 				if calls > 0 && !foundLeader {
 					how = "delete-foreign-by-non-leader"
+				} else {
+					// When did the deleter's own record stop being the live one? A leader that was
+					// replaced a moment ago may not know yet (C03 gives it one heartbeat interval and two
+					// operation time-outs): that is the recorded finding. One whose record has been
+					// gone for longer should not be claiming at all any more.
+					var lastOwn time.Duration = -1
+					for _, iv := range d.liveTimeline(op.Key) {
+						if iv.v.Writer == op.Inst && iv.v.Gen == op.Gen && iv.b <= op.TApply && iv.b > lastOwn {
+							lastOwn = iv.b
+						}
+					}
+					bound := d.plan.H + 2*hbTimeout(d.plan.H) + d.stallIn(op.Inst, lastOwn, op.TApply) + d.clientTimeout()
+					if lastOwn >= 0 && op.TApply-lastOwn > bound && !d.faultyFor(op.Inst) {
+						how = "delete-foreign-long-after-own-record-was-lost"
+					}
 				}
 			}
 			d.h.violate("C01", how+"/"+callerSig(op.Caller),
